@@ -50,12 +50,12 @@ Definition setmark (s: stream) (m: nat) : stream := mkStream (arrived s) (pos s)
 Inductive att := Got (c: bytes) | Under | EOS.
 
 (* one pass of the loop in readFromStream on a non-blocking seekable stream: read(n) returns
-   None (nothing yet, open), b'' (nothing, closed) or up to n octets; a short non-empty read is
-   seeked back and reported as an underrun - even when the stream is closed *)
+   None (nothing yet, open), b'' (nothing, closed) or up to n octets; after a short non-empty
+   read one more octet is asked for: b'' means the stream has ended (end-of-stream error),
+   otherwise everything is seeked back and an underrun is reported *)
 Definition attempt (s: stream) (n: nat) : att * stream :=
   if Nat.eqb n 0 then (Got [], s)
-  else if Nat.eqb (length (avail s)) 0 then ((if closed s then EOS else Under), s)
-  else if Nat.ltb (length (avail s)) n then (Under, s)
+  else if Nat.ltb (length (avail s)) n then ((if closed s then EOS else Under), s)
   else (Got (firstn n (avail s)), setpos s (pos s + n)).
 
 (* run until the decoder must suspend (inl: the continuation to retry) or finishes (inr) *)
